@@ -41,11 +41,22 @@ type explicitValue struct {
 	Value Value
 }
 
+// hasExactKey reports whether the JSON object b has a member spelled exactly key. encoding/json matches struct
+// tags without regard to letter case, but the escapes of the format are exact: {"__Entity": ...} is a record.
+func hasExactKey(b []byte, key string) bool {
+	var m map[string]json.RawMessage
+	if err := json.Unmarshal(b, &m); err != nil {
+		return false
+	}
+	_, ok := m[key]
+	return ok
+}
+
 func UnmarshalJSON(b []byte, v *Value) error {
 	// TODO: make this faster if it matters
 	{
 		var res extValueJSON
-		if err := json.Unmarshal(b, &res); err == nil && res.Extn != nil {
+		if err := json.Unmarshal(b, &res); err == nil && res.Extn != nil && hasExactKey(b, "__extn") {
 			switch res.Extn.Fn {
 			case "ip":
 				val, err := ParseIPAddr(res.Extn.Arg)
@@ -94,7 +105,7 @@ func UnmarshalJSON(b []byte, v *Value) error {
 			// {"type":"X","id":"Y"} parses as a Record and requires
 			// schema-guided coercion (see x/exp/types.EntityMap.UnmarshalJSONWithSchema).
 			var ej entityValueJSON
-			if err := json.Unmarshal(b, &ej); err == nil && ej.Entity != nil {
+			if err := json.Unmarshal(b, &ej); err == nil && ej.Entity != nil && hasExactKey(b, "__entity") {
 				*v = EntityUID{
 					Type: EntityType(ej.Entity.Type),
 					ID:   String(ej.Entity.ID),
